@@ -46,6 +46,17 @@ CLAIMS = {
    note=COMMON_NOTE + "Linux mode & ~umask semantics and the 0666/0777 defaults of fopen/bind are model assumptions validated by the real-FS stream; the harness runs as root so permission failures of open/unlink are not exercised; path_dirname/path_is_accessible are covered end-to-end only.",
    technique="Lean 4 theorems (omega, decide over 512 umasks, induction over path components) on kernels translated from the C source each run + differential correspondence + real binary runs",
    ref="5/C16"),
+
+ "C20": dict(
+   text="Proof. Theorems (Props/C20.lean) over a model whose expand loop, extract inputs, bounds, --bits arithmetic, open flags/mode, force-unlink and create_subkeys digest program are "
+        "regenerated from hkdf.c, mungekey/{conf,key}.c and munged/conf.c every run: HKDF model = an independent RFC 5869 definition for every MAC with hashLen-byte tags, key, salt, info "
+        "and L <= 255*hashLen; output exactly L bytes; --bits b in 256..8192 gives exactly ceil(b/8) bytes and anything else is refused; the key file holds exactly the HKDF output; no "
+        "group/other permission bit for every umask; O_EXCL never replaces an existing file unless --force unlinked it; subkeys are H(file||'1'), H(file||'2') of the ENTIRE file for every "
+        "read chunking and EINTR pattern; files shorter than 32 bytes refused; identical files => identical subkeys, converse under a named no-collision hypothesis. Tie: real hkdf.c over a toy "
+        "MAC byte-exact against the model; real OpenSSL path, RFC vectors, create_key/create_subkeys in-process and the rebuilt mungekey binary judged by python hmac/hashlib and os.stat oracles.",
+   note=COMMON_NOTE + "HMAC/SHA are parameters (OpenSSL tied only by the python oracle); strtol option syntax not modelled; the step from equal subkeys to credential acceptance is C02/C10 and is exercised here only by the thorough-tier two-daemon run.",
+   technique="Lean 4 theorems (induction over expand rounds and read chunks) on a model regenerated from the C source + differential correspondence + python RFC 5869 oracle",
+   ref="5/C20"),
 }
 NA_REASON = "check not built yet (work in progress, see DESIGN.md section 7 staging)"
 
